@@ -2,7 +2,7 @@
 from .families import run_family
 from ..rules import structure as st
 from ..rules import callsites as cs
-from ..rules import origin, forward, pyrules
+from ..rules import origin, forward, pyrules, records
 
 
 def extras():
@@ -18,6 +18,9 @@ EXTRAS = [
     lambda rep, fb, tier: st.rule_clone(rep, fb),
     lambda rep, fb, tier: cs.rule_dispatch(rep, fb),
     lambda rep, fb, tier: origin.rule_origin(rep, fb),
+    lambda rep, fb, tier: origin.rule_rebase(rep, fb),
+    lambda rep, fb, tier: origin.rule_merge_regular(rep, fb),
+    lambda rep, fb, tier: records.rule_regular_length(rep, fb),
     lambda rep, fb, tier: forward.rule_same_name(rep, fb),
     lambda rep, fb, tier: pyrules.rule_py_dispatch(rep),
     lambda rep, fb, tier: pyrules.rule_py_categories(rep),
